@@ -159,6 +159,38 @@ func (g *ctrGen) New() id.Id                { return ctrId{fmt.Sprintf("h%d", at
 
 var sharedGen = &ctrGen{}
 
+// SetXML renders several processes (executable flags given) plus a collaboration with message flows (source throw/… id, target id).
+func SetXML(procs []*Prog, executable []bool, flows [][2]string, extra string) string {
+	var sb strings.Builder
+	sb.WriteString(defsHead)
+	sb.WriteString(extra)
+	sb.WriteString(`<bpmn:collaboration id="collab">`)
+	for i := range procs {
+		fmt.Fprintf(&sb, `<bpmn:participant id="part%d" processRef="proc%d"/>`, i, i)
+	}
+	for i, f := range flows {
+		fmt.Fprintf(&sb, `<bpmn:messageFlow id="mf%d" sourceRef="%s" targetRef="%s"/>`, i, f[0], f[1])
+	}
+	sb.WriteString("</bpmn:collaboration>\n")
+	for i, p := range procs {
+		fmt.Fprintf(&sb, "<bpmn:process id=\"proc%d\" isExecutable=\"%v\">\n", i, executable[i])
+		p.body(&sb)
+		sb.WriteString("</bpmn:process>\n")
+	}
+	sb.WriteString("</bpmn:definitions>\n")
+	return sb.String()
+}
+
+// NewCollector attaches the event log / task bookkeeping of Inst to any tracer (used for process sets).
+func NewCollector(tr tracing.ITracer) *Inst {
+	ctx, cancel := context.WithCancel(context.Background())
+	in := &Inst{Ctx: ctx, Cancel: cancel, pending: map[string][]bpmn.TaskTrace{}, ntask: map[string]int{}}
+	in.cond = sync.NewCond(&in.mu)
+	ch := tr.SubscribeChannel(make(chan tracing.ITrace, 64))
+	go in.pump(ch)
+	return in
+}
+
 // ---------- instance runner ----------
 
 type Ev struct {
@@ -290,6 +322,9 @@ func (in *Inst) pump(ch chan tracing.ITrace) {
 			ev = Ev{"error", "", fmt.Sprintf("%T|%v", t.Error, t.Error)}
 		case bpmn.CeaseFlowTrace:
 			ev = Ev{"cease", "", ""}
+			ev.N = nodeId(t.Process)
+		case bpmn.CeaseProcessSetTrace:
+			ev = Ev{"ceaseset", "", ""}
 		case bpmn.NewFlowTrace:
 			ev = Ev{"newflow", "", t.FlowId.String()}
 		case bpmn.IncomingFlowProcessedTrace:
